@@ -1,6 +1,6 @@
 (** Correspondence check for C16.  Depends on the model only (no proofs). *)
 From Coq Require Import String List NArith Bool.
-From Fabio Require Import Lib.Outcome Lib.Bytes Lib.Verdict Model.GrpcPool Model.GrpcTransport Model.GrpcKeepalive.
+From Fabio Require Import Lib.Outcome Lib.Bytes Lib.Verdict Model.GrpcPool Model.GrpcTransport Model.GrpcKeepalive Model.GrpcListeners.
 From Fabio Require Model.Glob Model.Lookup.
 Import ListNotations.
 Local Open Scope N_scope.
@@ -62,6 +62,11 @@ Inductive hstep := HCall (m : md) (upath : option str) (c : hchosen) | HSetTable
 Inductive xhstep := XH (st : hstep) | XHLose (u : url).
 Inductive xsstep := XS (s : sstep) | XSLose (u : url).
 
+(* a history of a process with several gRPC listeners: a call through listener [i], a table
+   change, a moment at which every cleanup loop of the process has woken up once, a backend
+   that loses its connections *)
+Inductive lhstep := LHCall (i : nat) (m : md) (upath : option str) (c : hchosen) | LHSetTable (t : table) | LHTickAll | LHLose (u : url).
+
 Record qobs := mkqobs { qb_bv : option bview; qb_cv : cview; qb_pings : N; qb_begun : N; qb_ended : N }.
 
 Inductive case :=
@@ -93,7 +98,14 @@ Inductive case :=
    client of the harness with keepalive parameters of its own; after every item: what the
    backend and the caller saw of the call, keepalive pings the backend has read so far,
    connections begun / ended at the backend so far *)
-| CQuiet (via : qvia) (pol : policy) (items : list qitem) (obs : list qobs).
+| CQuiet (via : qvia) (pol : policy) (items : list qitem) (obs : list qobs)
+(* a history of calls, table changes and real cleanup ticks on processes started by the real
+   config.Load + main.go:startServers with SEVERAL gRPC listeners each ([groups]: per
+   startServers call the listeners in proxy.addr order, true = proto=grpcs with a cert source),
+   every call through one of the listeners, evaluated through the machine with one proxy per
+   listener (Model/GrpcListeners.v [lrun]): connections begun / ended at each backend -- from
+   all listeners together -- after every step *)
+| CListeners (noglob : bool) (down : list url) (groups : list (list bool)) (steps : list lhstep) (obs : list (list cnt)).
 
 (* ---- CPool ---- *)
 Fixpoint pool_same (st : list url * pstate) (ops : list pop2) (obs : list pobs) : bool :=
@@ -308,6 +320,110 @@ Fixpoint reached_after_loss (lost : list url) (steps : list xhstep) : bool :=
   | _ :: r => reached_after_loss lost r
   end.
 
+(* ---- CListeners: through [lrun] ---- *)
+Definition lop_at (i : nat) (o : op) : lop :=
+  match o with
+  | Call m p k => LCall i m p k
+  | SetTable t => LSetTable t
+  | CleanupTick => LTick i
+  | ConnShutdown u => LConnShutdown i u
+  end.
+Definition lhist_ops (ng : bool) (down : list url) (ps : lproc) (st : lhstep) : option (list lop) :=
+  match st with
+  | LHSetTable t => Some [LSetTable t]
+  | LHTickAll => Some (l_tick_all (List.length ps))
+  | LHLose u => Some [LLose u]
+  | LHCall i m up c =>
+      match nth_error ps i with
+      | None => None
+      | Some l => option_map (map (lop_at i)) (hist_ops ng (ls_tls l) down (x_st (ls_px l)) (HCall m up c))
+      end
+  end.
+Fixpoint lhist_same (ng : bool) (down : list url) (ps : lproc) (steps : list lhstep) (obs : list (list cnt)) : bool :=
+  match steps, obs with
+  | [], [] => true
+  | st :: rs, b :: rb =>
+      match lhist_ops ng down ps st with
+      | None => false
+      | Some ops =>
+          let ps' := lrun ng down ps ops in
+          forallb (fun c => (cn_begun c =? l_begun_at ps' (cn_url c))
+                            && (cn_ended c =? l_ended_at ps' (cn_url c))) b
+          && lhist_same ng down ps' rs rb
+      end
+  | _, _ => false
+  end.
+(* the property on the observations alone.  [open]: the (listener, backend) pairs for which the
+   history so far says that the listener was served by the backend and nothing has ended that
+   backend's connections since (no tick that found it outside the table, no loss).  Reuse: a
+   call through a listener that has been served by the backend opens nothing.  Otherwise the
+   call opens at most one connection, and exactly one when the backend has none at all (whether
+   listeners share connections among themselves is not the property's business).  Nobody else
+   is contacted; a call that reaches nobody changes nothing; ticks and losses as in [xsess_spec]. *)
+Definition lopen_mem (i : nat) (u : url) (open : list (nat * url)) : bool :=
+  existsb (fun x => Nat.eqb (fst x) i && beq (snd x) u) open.
+Fixpoint lsess_spec (urls : list url) (open : list (nat * url)) (prev : list cnt) (steps : list lhstep) (obs : list (list cnt)) : bool :=
+  match steps, obs with
+  | [], [] => true
+  | s :: rs, b :: rb =>
+      forallb (fun c =>
+        let '(pb, pe) := cnt_of prev (cn_url c) in
+        match s with
+        | LHCall i _ _ (HBackend u) =>
+            if beq u (cn_url c)
+            then (cn_ended c =? pe)
+                 && (if lopen_mem i u open then cn_begun c =? pb
+                     else if pe <? pb then (cn_begun c =? pb) || (cn_begun c =? pb + 1)
+                     else cn_begun c =? pb + 1)
+            else (cn_begun c =? pb) && (cn_ended c =? pe)
+        | LHTickAll =>
+            (cn_begun c =? pb) && (cn_ended c =? (if mem (cn_url c) urls then pe else pb))
+        | LHLose u =>
+            (cn_begun c =? pb) && (cn_ended c =? (if beq u (cn_url c) then pb else pe))
+        | _ => (cn_begun c =? pb) && (cn_ended c =? pe)
+        end) b
+      && Nat.eqb (List.length b) (List.length prev)
+      && lsess_spec (match s with LHSetTable t => table_urls t | _ => urls end)
+                    (match s with
+                     | LHCall i _ _ (HBackend u) => if lopen_mem i u open then open else (i, u) :: open
+                     | LHTickAll => filter (fun x => mem (snd x) urls) open
+                     | LHLose u => filter (fun x => negb (beq (snd x) u)) open
+                     | _ => open
+                     end) b rs rb
+  | _, _ => false
+  end.
+(* ... and every call, through whichever listener, is served by a backend of a route that
+   matches, or by nobody when no route matches or the route's backend is down; that the listener
+   has no cert source excuses nothing (a plaintext dial to a TLS backend is F-C16-2).  [known]:
+   the same with the calls of that finding excused -- a call through a listener WITHOUT a cert
+   source that reached nobody where a grpcs:// target is routed -- to tell what else fails. *)
+Fixpoint lroute_spec (known : bool) (tls : list bool) (ng : bool) (down : list url) (t : table) (steps : list lhstep) : bool :=
+  match steps with
+  | [] => true
+  | st :: r =>
+      (match st with
+       | LHCall i m (Some p) ch =>
+           let host := dsthost m in
+           host_domain host &&
+           match ch with
+           | HBackend u => routed_ok t ng host p u
+           | HNobody => unrouted_ok t ng host p
+           | HUnreachable =>
+               existsb (fun u => (mem u down || (known && plaintext_to_tls (nth i tls true) u)) && routed_ok t ng host p u)
+                       (table_urls t)
+           end
+       | LHCall _ _ None ch => match ch with HNobody => true | _ => false end
+       | _ => true
+       end)
+      && lroute_spec known tls ng down (match st with LHSetTable t' => t' | _ => t end) r
+  end.
+(* a TLS backend was reached through a listener with a cert source that is not the only listener *)
+Definition tls_served (tls : list bool) (steps : list lhstep) : bool :=
+  existsb (fun st => match st with
+                     | LHCall i _ _ (HBackend u) => has_prefix u s_grpcs && nth i tls false
+                     | _ => false
+                     end) steps.
+
 (* ---- CCall ---- *)
 (* the property's clause on the two views: everything the backend scripted arrives; its
    headers are owed only when it sends at least one message *)
@@ -461,4 +577,24 @@ Definition check_case (c : case) : N :=
                | QProxy => existsb (fun it => match it with QCall q => long_quiet q | QGap d => ka_floor <=? d end) items
                | QDirect _ => existsb (fun o => 0 <? qo_pings o) (qrun via pol q_init items)   (* the machine did something *)
                end)
+  | CListeners ng down groups steps obs =>
+      if negb (forallb (fun st => match st with LHSetTable t => table_domain t | _ => true end) steps) then v_disagree else
+      let tls := concat groups in
+      let same := lhist_same ng down (l_init tls []) steps obs in
+      let counters := match obs with
+                      | [] => true
+                      | b0 :: _ => lsess_spec [] [] (map (fun c => mkcnt (cn_url c) 0 0) b0) steps obs
+                      end in
+      let strict := counters && lroute_spec false tls ng down [] steps in
+      (* the property with the calls of F-C16-2 excused *)
+      let lenient := counters && lroute_spec true tls ng down [] steps in
+      (* F-C16-2 repaired: a TLS backend reached through a listener without a cert source *)
+      let repaired := existsb (fun st => match st with
+                                         | LHCall i _ _ (HBackend u) => negb (nth i tls true) && has_prefix u s_grpcs
+                                         | _ => false
+                                         end) steps in
+      let nontriv := (1 <? N.of_nat (List.length tls)) && tls_served tls steps in
+      if same then verdict true strict (if lenient then Some 2 else None) nontriv
+      else if lenient then (if strict && repaired then v_agree else v_disagree)
+      else v_disagree_spec_fails
   end.
